@@ -126,9 +126,6 @@ theorem mem_sortNat (x : Nat) (l : List Nat) : x ∈ sortNat l ↔ x ∈ l := by
     have : sortNat (a :: l) = insertSorted a (sortNat l) := rfl
     rw [this, mem_insertSorted, ih]; simp
 
-/-- the adjacency `break_cycles` starts from: the input without its self-loops -/
-def noLoopRows (m : Mat) : Rows := tab m.nRow fun i => sortNat ((m.adj i).filter (· != i))
-
 theorem mem_noLoopRows (m : Mat) (i j : Nat) :
     j ∈ (noLoopRows m).row i ↔ i < m.nRow ∧ j ∈ m.adj i ∧ j ≠ i := by
   unfold noLoopRows Rows.row
@@ -142,17 +139,31 @@ theorem breakCyclesWith_rows_sub (fuel : Nat) (ext : BreakExt) (m : Mat) (root :
     (directed : Option Bool) (a : Rows)
     (h : breakCyclesWith fuel ext m root directed = .ok (.rows a)) : a.Sub (noLoopRows m) := by
   unfold breakCyclesWith at h
-  simp only [bind, Except.bind, pure, Except.pure] at h
   split at h
   · cases h
-  · rename_i acyc _
-    cases acyc
-    · simp only [Bool.false_eq_true, ↓reduceIte] at h
-      cases root with
-      | none => simp [throw, throwThe, MonadExceptOf.throw] at h
-      | some root =>
-        simp only at h
-        trace_state
-        sorry
-    · simp at h
+  · cases h
+  · split at h
+    · cases h
+    · split at h
+      · cases h
+      · split at h
+        · cases h
+        · unfold breakDirected at h
+          simp only at h
+          split at h
+          · cases h
+          · cases h
+          · split at h
+            · cases h
+            · rename_i a' ha'
+              cases h
+              exact breakLabels_sub _ _ _ _ _ _ _ ha'
+        · unfold breakUndirected at h
+          simp only at h
+          split at h
+          · cases h
+          · rename_i a' ha'
+            cases h
+            exact breakStarts_sub _ _ _ _ ha'
+
 end SkNet.Cycles
